@@ -35,6 +35,9 @@ def jobs(tier):
     J.append(seq("1,0,0,0", len=4 if q else 5, keys=4, hmap=1, flags=1, nresize=3, workers=8))
     J.append(seq(len=6, keys=2, hmap=1, flags=3, count_commit_order=0, nresize=3, workers=8))
     J.append(seq(len=6 if q else 7, keys=4, hmap=1, flags=1, maxb=2, nresize=3, workers=8))
+    # ... with the recording custom allocator (every block released through it must have come from it), per bucket allocator
+    J.append(seq(len=4 if q else 5, keys=4, hmap=1, flags=1, custom=1, mm=-1, nresize=3, workers=8))
+    J.append(seq(len=5, keys=2, hmap=1, flags=3, custom=1, count_commit_order=0, nresize=3, workers=8))
     # counter-driven resizing against a small maximum (one key, equal hashes: no chain-length growth interferes), and with the
     # resize worker never scheduled (queued lazy resizes stay pending while further operations arbitrate the target)
     for mx in (2, 4):
